@@ -38,6 +38,55 @@ Theorem quota_monitor_accepts_model : forall c ops, 0 < c_ss c ->
 Proof. exact quota_monitor_lemma. Qed.
 Print Assumptions quota_monitor_accepts_model.
 
+(* Isolation.  Whatever one operation does (including every failure), every
+   file that is not its target is still there unchanged and every byte of it
+   reads the same afterwards: [content] is the byte the file holds at an
+   index (device sector if it has one, hole source otherwise).  The device
+   never changes size.  For all histories leading to the state. *)
+Theorem isolation : forall c ops o st' x evs, 0 < c_ss c ->
+  step c (run c (init c) ops) o = (st', x, evs) ->
+  length (st_dev st') = length (st_dev (run c (init c) ops)) /\
+  (op_k o <> KFinal -> forall g fg, slot_of (op_k o) <> Some g ->
+     get_file (run c (init c) ops) g = Some fg ->
+     get_file st' g = Some fg /\
+     forall j, content (c_ss c) (st_dev st') fg j = content (c_ss c) (st_dev (run c (init c) ops)) fg j).
+Proof. exact isolation_lemma. Qed.
+Print Assumptions isolation.
+
+(* file_refines_bytes, part 1 (WriteAt): in every reachable state, after
+   WriteAt(p, off) returned n (with or without an error, for every failure
+   oracle carried by the world w) the file holds p[0..n) at [off, off+n) and
+   every other byte of it is unchanged. *)
+Theorem write_refines_bytes : forall c ops slot f w off p w' f' n e, 0 < c_ss c ->
+  let st := run c (init c) ops in
+  get_file st slot = Some f -> w_dev w = st_dev st -> w_al w = st_al st -> (0 <= off)%Z ->
+  file_write (c_ss c) w f off p = (w', f', n, e) ->
+  updated (c_ss c) (w_dev w) (w_dev w') f f' (Z.to_nat off) n p /\ n <= length p /\
+  length (w_dev w') = length (w_dev w).
+Proof. exact write_refines_lemma. Qed.
+Print Assumptions write_refines_bytes.
+
+(* file_refines_bytes, part 2 (ReadAt): in every reachable state the bytes
+   ReadAt returns are the file's contents at [off, off+n); without an
+   injected failure n = min(len, size - off). *)
+Theorem read_refines_bytes : forall c ops slot f w off len w' x, 0 < c_ss c ->
+  let st := run c (init c) ops in
+  get_file st slot = Some f -> w_dev w = st_dev st -> w_al w = st_al st -> (0 <= off)%Z ->
+  file_read (c_ss c) w f off len = (w', x) ->
+  exists n e got, x = ORes (Z.of_nat n) e got /\ n = length got /\
+    reads_ok (c_ss c) (w_dev w) f (Z.to_nat off) got /\
+    n <= Nat.min len (N.to_nat (f_size f) - Z.to_nat off) /\
+    ((e = ENone \/ e = EEOF) -> n = Nat.min len (N.to_nat (f_size f) - Z.to_nat off)).
+Proof. exact read_refines_lemma. Qed.
+Print Assumptions read_refines_bytes.
+
+(* Not proved (checked by the correspondence run only): that Truncate keeps
+   the bytes below the new size and that bytes exposed by growing are null
+   ("also after shrinking and re-growing"), i.e. the full statement
+     forall c ops, ops_wf ops -> trace_ok c (trace c (init c) ops) = true
+   for the content part [p_content] of the monitor.  The sector and quota
+   parts are proved above for all histories. *)
+
 (* Non-vacuity: a history that creates two files, fragments the device,
    fails a write half-way, and ends with everything closed. *)
 Definition ex_cfg := mkCfg 4 6 3 40.
